@@ -344,6 +344,106 @@ def stop_vs_loss(decisions, nconns=3, loser=1):
         w.close()
 
 
+def two_stops(decisions):
+    """Two threads call stop() at the same moment (a signal handler and the main program, say).  One schedule:
+    exactly one of the calls carries the shutdown out, the other is refused with the documented RuntimeError, and
+    the node ends up stopped."""
+    from dv import sched
+    w = W.NodeWorld({"peers": [{"name": "peer1.example", "ip": ["10.1.1.1"]}],
+                     "apps": [{"app_id": 4, "auth": True, "peers": [0], "handler": "answer"}],
+                     "node_timers": {"idle": 5000, "dwa": 5000, "cer": 50, "cea": 50, "wakeup": 1}})
+    try:
+        w.start()
+        c = w.handshake_in("peer1.example", auth=[4], ip="10.1.1.1", hbh=0x100)
+        ex = sched.Explorer(decisions)
+        sched.attach(w.k, ex)
+        ex.armed = True
+        boxes = [w.k.spawn(lambda: w.node.stop(wait_timeout=3, force=False), name=f"stopper{i}") for i in range(2)]
+        w.k.run()
+        ex.armed = False
+        for sec in range(8):
+            dprs = [f for f in c.refresh() if f.code == W.CMD_DP and f.is_request]
+            if dprs and not c.node_closed and not getattr(c, "dpa_sent", False):
+                c.dpa_sent = True
+                w.feed_msg(c, {"k": "DPA", "host": "peer1.example", "hbh": dprs[0].h["hbh"], "e2e": dprs[0].h["e2e"]})
+            if all(b["done"] for b in boxes):
+                break
+            w.advance(1)
+        problems = []
+        outcomes = sorted("ok" if b["done"] and b["exc"] is None else
+                          ("running" if not b["done"] else type(b["exc"]).__name__) for b in boxes)
+        if outcomes != ["RuntimeError", "ok"]:
+            problems.append(("outcomes", f"the two stop() calls ended {outcomes}: {[repr(b['exc']) for b in boxes]}"))
+        dprs = [f for f in c.refresh() if f.code == W.CMD_DP and f.is_request]
+        if len(dprs) != 1:
+            problems.append(("dpr-count", f"{len(dprs)} DPRs were sent to the ready peer"))
+        w.advance(3)
+        left = [s_ for s_ in w.net.open_sockets()]
+        if left:
+            problems.append(("sockets-open-after-stop", f"{left[:4]}"))
+        for sig, d in W.monitor_threads(w):
+            problems.append((f"thread-died/{sig}", d))
+        return ex.trace, problems
+    finally:
+        w.close()
+
+
+def stop_vs_watchdog(decisions):
+    """stop() is called in the I/O-loop turn in which the idle timer of a ready connection expires.  One schedule:
+    no watchdog request is written once stop() has begun (the peer is sent the DPR and nothing after it)."""
+    from dv import sched
+    w = W.NodeWorld({"peers": [{"name": "peer1.example", "ip": ["10.1.1.1"]}],
+                     "apps": [{"app_id": 4, "auth": True, "peers": [0], "handler": "answer"}],
+                     "node_timers": {"idle": 2, "dwa": 50, "cer": 50, "cea": 50, "wakeup": 1}})
+    try:
+        w.start()
+        c = w.handshake_in("peer1.example", auth=[4], ip="10.1.1.1", hbh=0x100)
+        t0 = w.k.now
+        io = [t for t in w.k.threads if "_handle_connections" in t.name][0]
+        while io.deadline is not None and int(io.deadline) - int(t0) <= 2:
+            w.k.advance(io.deadline - w.k.now)
+        if [f for f in c.refresh() if f.is_request and f.code == W.CMD_DW]:
+            return [], [("setup", "the DWR went out before the turn under exploration")]
+        due = io.deadline
+        ex = sched.Explorer(decisions)
+        sched.attach(w.k, ex)
+
+        def stopper():
+            w.k.block(lambda: False, timeout=50)
+            w.node.stop(wait_timeout=3, force=False)
+        box = w.k.spawn(stopper, name="stopper")
+        w.k.run()
+        [t for t in w.k.threads if t.name == "stopper"][0].deadline = due
+        ex.armed = True
+        w.k.advance(due - w.k.now)
+        ex.armed = False
+        w.k.run()
+        problems = []
+        out = c.refresh()
+        order = [f.brief()[:3] for f in out if f.is_request and f.code in (W.CMD_DW, W.CMD_DP)]
+        if "DPR" in order and "DWR" in order[order.index("DPR"):]:
+            problems.append(("dwr-after-dpr", f"requests written to the peer, in order: {order}"))
+        for sec in range(8):
+            dprs = [f for f in c.refresh() if f.code == W.CMD_DP and f.is_request]
+            if dprs and not c.node_closed and not getattr(c, "dpa_sent", False):
+                c.dpa_sent = True
+                for f in [x for x in c.out if x.is_request and x.code == W.CMD_DW]:
+                    w.feed_msg(c, {"k": "DWA", "host": "peer1.example", "hbh": f.h["hbh"], "e2e": f.h["e2e"]})
+                w.feed_msg(c, {"k": "DPA", "host": "peer1.example", "hbh": dprs[0].h["hbh"], "e2e": dprs[0].h["e2e"]})
+            if box["done"]:
+                break
+            w.advance(1)
+        if box["exc"] is not None:
+            problems.append((f"stop-raised/{type(box['exc']).__name__}", repr(box["exc"])))
+        elif not box["done"]:
+            problems.append(("stop-did-not-return", "stop() still running 8 s after the call"))
+        for sig, d in W.monitor_threads(w):
+            problems.append((f"thread-died/{sig}", d))
+        return ex.trace, problems
+    finally:
+        w.close()
+
+
 def schedule_part(rec, shard, nshards, thorough):
     from dv import sched
     from dv.common import fp
@@ -366,6 +466,29 @@ def schedule_part(rec, shard, nshards, thorough):
             rec.case(fp("sched", nconns, tuple(sorted(dec.items()))) if dec else None,
                      ["schedule-exploration", f"deviations:{len(dec)}"], sample=lambda: dict(case, choice_points=len(trace)))
         rec.extra["stop_vs_loss_schedules"] = rec.extra.get("stop_vs_loss_schedules", 0) + n
+    from dv import simkernel as sk
+    N = sk.load_node()["node"].Node
+    for name, fn, points, bound in (("two-stops", two_stops, {N.stop: None}, 3 if thorough else 2),
+                                    ("stop-vs-watchdog", stop_vs_watchdog,
+                                     {N.stop: r"_stopping|_stop_lock|send_dpr|for conn", N._check_timers: None, N.send_dwr: None}, 3 if thorough else 2)):
+        sched.clear()
+        sched.install(points)
+        holder2 = {}
+
+        def run_two(dec, fn=fn):
+            tr, problems = fn(dec)
+            holder2["last"] = problems
+            return tr
+        n2 = 0
+        for dec, trace in sched.enumerate_schedules(run_two, bound, shard, nshards):
+            case = {name: True, "schedule": {str(i): c for i, c in sorted(dec.items())}}
+            for kind, detail in holder2["last"]:
+                rec.violation(f"C18/{name}/{kind}", case, detail)
+            n2 += 1
+            rec.case(fp("sched", name, tuple(sorted(dec.items()))) if dec else None,
+                     ["schedule-exploration", f"exploration:{name}", f"deviations:{len(dec)}"], sample=lambda: dict(case, choice_points=len(trace)))
+        rec.extra[f"{name}_schedules"] = rec.extra.get(f"{name}_schedules", 0) + n2
+    sched.clear()
 
 
 def shard_main(shard, nshards, tier, scale):
@@ -435,11 +558,38 @@ def run(tier, scale=1.0):
     rec = Recorder(PID)
     for d in hyp.pool_run(shard_main, (tier, scale)):
         rec.merge(d)
-    required = {f"state:{s}": 1 for s in set(STATES)} | {f"reaction:{r}": 1 for r in REACTIONS} | \
+    required = {"exploration:two-stops": 1, "exploration:stop-vs-watchdog": 1} | {f"state:{s}": 1 for s in set(STATES)} | {f"reaction:{r}": 1 for r in REACTIONS} | \
                {"schedule-exploration": 1, "handshake-completes-while-stopping": 1, "listeners:2": 1, "listeners:4": 1, "simultaneous-dpas": 1, "second-connection-of-a-peer": 1, "force:True": 1, "newcomers:2": 1, "nconns:3": 1, "reconnect-inside:True": 1, "app:threading": 1}
     return finish(rec, tier=tier, level="exploration", rule=RULE, assumptions=ASSUME, t0=t0,
                   required_classes=required)
 
 
 def replay(doc):
+    from dv import sched, simkernel as sk
+    case = doc["case"]
+    explorations = {"two-stops": (two_stops, "C18/two-stops/"), "stop-vs-watchdog": (stop_vs_watchdog, "C18/stop-vs-watchdog/")}
+    for name, (fn, prefix) in explorations.items():
+        if case.get(name):
+            N = sk.load_node()["node"].Node
+            sched.clear()
+            sched.install({N.stop: None} if name == "two-stops" else
+                          {N.stop: r"_stopping|_stop_lock|send_dpr|for conn", N._check_timers: None, N.send_dwr: None})
+            _, problems = fn({int(i): c for i, c in case["schedule"].items()})
+            sigs = [prefix + k for k, _ in problems]
+            if doc["signature"] in sigs:
+                print(f"  replayed: {problems[0][1][:300]}")
+                print(f"VIOLATION property={PID} replay=(replay)")
+                return 1
+            print(f"[{PID}] replay: signature {doc['signature']} does not reproduce (got {sigs})")
+            return 0
+    if case.get("stop_vs_loss"):
+        install_points()
+        _, problems = stop_vs_loss({int(i): c for i, c in case["schedule"].items()}, *case["stop_vs_loss"])
+        sigs = ["C18/concurrent-loss/" + k for k, _ in problems]
+        if doc["signature"] in sigs:
+            print(f"  replayed: {problems[0][1][:300]}")
+            print(f"VIOLATION property={PID} replay=(replay)")
+            return 1
+        print(f"[{PID}] replay: signature {doc['signature']} does not reproduce (got {sigs})")
+        return 0
     return generic_replay(PID, evaluate, doc)
